@@ -4,7 +4,7 @@
 # passes without, repository test summary unchanged), then runs the given checks against it.
 set -u
 id="$1"; k="$2"; shift 2
-src="/tmp/seed-out/$id"
+src="${SEED_SRC:-/tmp/seed-out/$id}"
 wt="/tmp/wt-seed-$id-$k"
 log="/root/scratch/seedlogs/$id-$k.log"; mkdir -p /root/scratch/seedlogs
 git -C /repo worktree remove --force "$wt" >/dev/null 2>&1
